@@ -44,4 +44,33 @@ theorem tableSafe_iff (size bound : Nat) : TableSafe size bound ↔ bound ≤ si
     · have := h (bound - 1) (by omega); omega
   · intro h i hi; omega
 
+/-! ### The list form of `duration_matrix`: one matrix per group of vehicle ids (factory/validate.go
+`validateTimeDependentMatricesAndIDs`, factory/vehicles.go) -/
+
+/-- The loop over the matrices: every matrix names at least one vehicle, no id is named twice. Returns the ids seen
+(`none`: rejected). -/
+def idsLoop : (seen : List String) → List (List String) → Option (List String)
+  | seen, [] => some seen
+  | seen, ids :: rest =>
+    if ids.isEmpty then none
+    else
+      match ids.foldl (fun (acc : Option (List String)) id =>
+          acc.bind (fun s => if s.contains id then none else some (id :: s))) (some seen) with
+      | none => none
+      | some s => idsLoop s rest
+
+/-- `validateTimeDependentMatricesAndIDs`, the id part: every vehicle of the input is named, and as many ids are named
+as there are vehicles. `countOnly = true` is the check WITHOUT the per-vehicle loop (what a seeded change left). -/
+def validateIdsG (countOnly : Bool) (vehicles : List String) (mats : List (List String)) : Bool :=
+  match idsLoop [] mats with
+  | none => false
+  | some seen => (countOnly || vehicles.all (fun v => seen.contains v)) && seen.length == vehicles.length
+
+abbrev validateIds := validateIdsG false
+
+/-- The matrix a vehicle's travel durations come from: the first one that names it. `none`: the vehicle falls back to
+its `speed` — which `validateVehicles` lets it omit whenever a duration matrix is present, so `none` is a nil dereference
+in `newVehicleType`. -/
+def matrixOf (mats : List (List String)) (v : String) : Option Nat := mats.findIdx? (fun ids => ids.contains v)
+
 end NR.Front
